@@ -56,6 +56,25 @@ def _check_main(ctx):
                 exact = u["multiple"][2] != "float"
                 if got is None or (got != want if exact else abs(got - want) > Fraction(1, 10**9) * max(1, abs(want))):
                     ctx.violation("signed-literal:" + text, text, str(want), repr((k, v)), "execute(%r)" % text)
+    # the magnitude that CANCELS the offset (absolute zero: -273.15 degC, -459.67 degF), as a float and as an exact fraction: the
+    # base value is 0 (0 K) — a value, like every other one — and `x U to U` is x
+    for u in phys:
+        f, o = Fraction(u["multiple"][0], u["multiple"][1]), Fraction(u["offset"][0], u["offset"][1])
+        if o == 0 or f == 0:
+            continue
+        x0 = -o / f
+        for xt, xv, exact in [(repr(float(x0)), Fraction(float(x0)), False), ("(%d/%d)" % (x0.numerator, x0.denominator), x0, True),
+                              (repr(float(x0) + 1.0), Fraction(float(x0) + 1.0), False)]:
+            xt = xt if not xt.startswith("-") else "(0%s)" % xt
+            for text, want, tol in [("%s %s" % (xt, u["singular"]), f * xv + o, Fraction(1, 10**9)),
+                                    ("%s %s to %s" % (xt, u["singular"], u["singular"]), xv, Fraction(1, 10**9) * max(1, abs(xv))),
+                                    ("(%s %s) + 10 K" % (xt, u["singular"]), f * xv + o + 10, Fraction(1, 10**9) * 10),
+                                    ("x_ = %s; x_ %s to %s" % (xt, u["singular"], u["singular"]), xv, Fraction(1, 10**9) * max(1, abs(xv)))]:
+                k, v = R.value(text)
+                ctx.count(text, bucket="offset-cancelled")
+                got = Fraction(v.mag) if (k == "ok" and isinstance(v, T.Quantity)) else (Fraction(v) if k == "ok" else None)
+                if got is None or (got != want if (exact and u["multiple"][2] != "float") else abs(got - want) > tol):
+                    ctx.violation("offset-cancelled:" + text, text, str(float(want)) if not exact else str(want), repr((k, v)), "execute(%r)" % text)
     pairs = []
     for d, us in g.by_dim.items():
         for a in us:
